@@ -733,6 +733,57 @@ func genC18(c *Ctx) {
 		}
 	}
 
+	// patterns in which a group opener, a class or an escape stands next to `?`, `<`, `P` - where a textual rewrite of the pattern
+	// (instead of handing it to the regexp package as it is) goes wrong - and every new string constant of the source as a pattern
+	// fragment; subjects are the fragments themselves with one character dropped, doubled or preceded by `P`
+	{
+		pats := []string{`\(\?<([a-z]+)>`, `x[(?<]`, `(?P<n>a+)b`, `(?<n>a+)b`, `\(\?P<`, `a\(?<b`, `[?<(]+`, `(?i)ab`, `(?:a|b)+`, `(?s:.)`, `\Q(?<\E`, `\$1`, `(a)(b)`, `^$`, `[[:alpha:]]+`, `\x41`, `\pL+`}
+		subjects := []string{"<b>", "a<b", "xP", "(?<ab>", "(?P<ab>", "aab", "AB", "x(", "x?", "x<", "(?<", "$1", "ab", "", "A", "é"}
+		for _, ns := range novelConsts().Strs {
+			pats = append(pats, ns, regexp.QuoteMeta(ns), "["+regexp.QuoteMeta(ns)+"]", `\`+ns, "x"+ns)
+			subjects = append(subjects, ns, ns+"x", "P"+ns)
+			for i := range ns {
+				subjects = append(subjects, ns[:i]+ns[i+1:], ns[:i]+"P"+ns[i:])
+			}
+		}
+		for _, p := range pats {
+			for si, sub := range subjects {
+				if c18IsNumeral(sub) {
+					continue
+				}
+				c18RegexCase(c, sub, p, "<$1>", si%2 == 0, false, "named/regex-syntax-corners")
+				if c18LitSafe(p) && si%5 == 0 {
+					c18RegexCase(c, sub, p, "-", si%2 == 1, true, "named/regex-syntax-corners")
+				}
+			}
+		}
+	}
+	// byte strings that are not UTF-8 (Latin-1 text in a Go string) with one-byte search and replacement strings, ASCII and not
+	{
+		vals := []string{"caf\xe9 cr\xe8me", "\xff\xfe\xfd", "a\x80b\x80c", "\xe9", "na\xefve\xe9\xe9", "ab\xc3", "\xc3\xa9\xe9"}
+		for _, v := range vals {
+			for _, fr := range [][2]string{{"a", "b"}, {"e", "E"}, {"\xe9", "e"}, {"\x80", "-"}, {" ", "_"}, {"c", ""}, {"\xc3", "?"}, {"\xe9", "\xc9"}, {"zz", "y"}, {"a", "\xe9"}} {
+				c18ReplaceAll(c, v, fr[0], fr[1], true, "named/non-utf8-bytes")
+			}
+			c18BoolAll(c, v, "\xe9", true, "named/non-utf8-bytes", true)
+		}
+	}
+	// long texts: lengths around the usual buffer sizes and around every new integer constant of the source
+	for li, L := range around([]int{63, 64, 65, 127, 128, 129, 255, 256, 257, 1000, 4096}, 20000) {
+		s := strings.Repeat("ab", L/2) + strings.Repeat("c", L%2)
+		for _, n := range []int{0, 1, L - 1, L, L + 1, L / 2} {
+			if n < 0 {
+				continue
+			}
+			arg, extra := c18NForm(li%6, n)
+			c18SliceAll(c, s, n, arg, "named/long-texts", extra...)
+		}
+		c18BoolAll(c, s, "bc", false, "named/long-texts", true)
+		c18BoolAll(c, s, s[L/3:], li%2 == 0, "named/long-texts", true)
+		c18ReplaceAll(c, s, "b", "xy", li%2 == 1, "named/long-texts")
+		c18ReplaceAll(c, s, s[:L-1], "", true, "named/long-texts")
+	}
+
 	// numeral receivers: outside the property (read as numbers), generic oracles and the model only
 	for _, s := range c18NumeralReceivers {
 		for _, nd := range []string{"", "1", "x"} {
